@@ -1,6 +1,7 @@
 import LekkerVerif.Core.Complete
 import LekkerVerif.Core.Sched
 import LekkerVerif.Properties.C18
+import LekkerVerif.Core.DefinedLoop
 
 /-! # C01 — the solved S-matrix is the exact solution of the network equations
 
@@ -85,3 +86,51 @@ theorem C01_kernel_is_generated {K : Type} [Field K] [DecidableEq K] (A B C : SM
     (h : A.add? B = .ok C) :
     C.toSM A.N B.M = Generated.add (A.toSM A.N A.M) (B.toSM A.M B.M) :=
   (C18_exec_refines A B C hA hB h).2.2.2
+
+/-- **definedness**: on a well-formed network with at least one component (every pin name of every component has a
+matrix index), the elimination — with *any* valid merge schedule — either returns a model or fails because one inner
+system `1 - S12 * S21` is singular.  No bookkeeping failure (a missing pin, an unmatched link, a shape mismatch in the
+kernel, an exhausted loop) is reachable: "a connection the API accepted is never silently left out" has no
+error-path exception either. -/
+theorem C01_only_failure_is_singular (net : NetD F) (wf : net.WF) (hidx : net.IdxWF) (hne : net.comps ≠ [])
+    (sched) (hv : Solve.ValidSched sched) :
+    (∃ total, net.solveWith sched = .ok total) ∨ net.solveWith sched = .error .singular :=
+  NetD.solveWith_ok_or_singular net wf hidx hne sched hv
+
+/-- … in particular with the pin-count heuristic the code uses (which is a valid schedule) -/
+theorem C01_only_failure_is_singular_heuristic (net : NetD F) (wf : net.WF) (hidx : net.IdxWF) (hne : net.comps ≠ [])
+    (e : Err) (h : net.solveWith Solve.pySched = .error e) : e = .singular :=
+  NetD.solveWith_pySched_error_singular net wf hidx hne e h
+
+/-- one merge on a consistent elimination state succeeds exactly when its inner system is invertible -/
+theorem C01_join_defined_iff (L : PinRef → PinRef → Prop) (B : Nat) (hsym : ∀ p q, L p q → L q p)
+    (s t : St F) (n : Nat) (bs : Solve.Book L B s) (bt : Solve.Book L B t) (cs : Solve.ConnL L s)
+    (hm : ∀ k, k ∈ St.membersOf s → k ∈ St.membersOf t → False) (is : Solve.Idx s) (it : Solve.Idx t) :
+    ∃ (A B' : SMat F),
+      ((∃ c, St.join s t n = .ok c) ↔ IsUnit (1 - (A.toSM A.N A.M).S12 * (B'.toSM A.M B'.M).S21)) ∧
+      ∀ e, St.join s t n = .error e → e = .singular := by
+  obtain ⟨_, _, _, A, B', _, _, _, _, _, h1, _, h3⟩ := St.join_defined L B hsym s t n bs bt cs hm is it
+  exact ⟨A, B', h1, h3⟩
+
+/-! non-vacuity of the definedness hypotheses: a concrete two-component network with one link is well formed, has an
+index for every pin and is non-empty -/
+section NonVacuity
+def cNV : CompD ℚ := { pins := ["a", "b"], idx := [("a", 0), ("b", 1)], S := ⟨2, 2, #[0, 1, 1, 0]⟩ }
+def netNV : NetD ℚ := { comps := [cNV, cNV], links := [((0, "b"), (1, "a"))], exposed := [("in", (0, "a")), ("out", (1, "b"))] }
+example : netNV.IdxWF := by
+  intro c hc n hn
+  simp [netNV] at hc; subst hc
+  simp [cNV] at hn
+  rcases hn with rfl | rfl <;> decide
+example : netNV.WF := by
+  constructor
+  · intro c hc; simp [netNV] at hc; subst hc; decide
+  · decide
+  · intro l hl p hp
+    simp [netNV] at hl; subst hl
+    rcases hp with rfl | rfl
+    · exact ⟨cNV, by simp [netNV], by simp [cNV]⟩
+    · exact ⟨cNV, by simp [netNV], by simp [cNV]⟩
+  · intro l hl; simp [netNV] at hl; subst hl; decide
+example : netNV.comps ≠ [] := by simp [netNV]
+end NonVacuity
